@@ -55,14 +55,20 @@ Nest(l, r) == LET p == N("nest", l, r) IN
   { <<p, Dfa(TRUE, p \o ".i", LimOf(l), None3, <<>>)>>, <<p \o ".i", Dfa(TRUE, p \o ".0", <<"int", r>>, None3, <<>>)>>,
     <<p \o ".0", Null(TRUE, <<<<ANY, p \o ".s">>>>)>>, <<p \o ".s", Inp(TRUE, <<<<ANY, p \o ".s">>>>)>> }
 
+\* mis: a greedy loop limited by a field that was never stored (a missing limit is the limit 0, not "no limit"), inside outer limit l
+Mis(l) == LET p == N("mis", l, 0) IN
+  { <<p, Dfa(TRUE, p \o ".i", LimOf(l), None3, <<>>)>>, <<p \o ".i", Dfa(TRUE, p \o ".0", <<"field", "nope">>, None3, <<>>)>>,
+    <<p \o ".0", Null(TRUE, <<<<ANY, p \o ".s">>>>)>>, <<p \o ".s", Inp(TRUE, <<<<ANY, p \o ".s">>>>)>> }
+
 Instances ==
   { [t |-> "blk", l |-> l, r |-> 0] : l \in (0 - 1) .. MaxL } \cup { [t |-> "star", l |-> l, r |-> 0] : l \in (0 - 1) .. MaxL }
   \cup { [t |-> "rep", l |-> l, r |-> r] : l \in (0 - 1) .. MaxL, r \in 0 .. MaxR }
   \cup { [t |-> "opt", l |-> l, r |-> r] : l \in {0 - 1, 1, 2}, r \in 0 .. (MaxR + 1) }
   \cup { [t |-> "len", l |-> l, r |-> 0] : l \in (0 - 1) .. MaxL } \cup { [t |-> "fld", l |-> l, r |-> 0] : l \in {0 - 1, 2, 4} }
   \cup { [t |-> "nest", l |-> l, r |-> r] : l \in {0 - 1, 0, 2, 4}, r \in 0 .. MaxR }
+  \cup { [t |-> "mis", l |-> l, r |-> 0] : l \in {0 - 1, 0, 3} }
 Graph(i) == CASE i.t = "blk" -> Blk(i.l) [] i.t = "star" -> Star(i.l) [] i.t = "rep" -> Rep(i.l, i.r) [] i.t = "opt" -> Opt(i.l, i.r)
-              [] i.t = "len" -> Len3(i.l) [] i.t = "fld" -> Fld(i.l) [] i.t = "nest" -> Nest(i.l, i.r)
+              [] i.t = "len" -> Len3(i.l) [] i.t = "fld" -> Fld(i.l) [] i.t = "nest" -> Nest(i.l, i.r) [] i.t = "mis" -> Mis(i.l)
 AllPairs == UNION { Graph(i) : i \in Instances }
 MGraph == [ nm \in { p[1] : p \in AllPairs } |-> (CHOOSE p \in AllPairs : p[1] = nm)[2] ]
 TopOf(i) == N(i.t, i.l, i.r)
